@@ -116,3 +116,13 @@ Theorem gen_status_command_is_the_model :
   forall args c, gen_ub_override args c = ub_override args c.
 Proof. split; [reflexivity|]. split; [reflexivity|]. intros args c. reflexivity. Qed.
 Print Assumptions gen_status_command_is_the_model.
+
+(* ---- util.posix_environment: the line env(var, value) sends, the line env(var) sends, the slice of its result ---- *)
+Theorem gen_env_lines_are_the_model :
+  (forall var value, gen_export_line var value = export_line var value) /\
+  (forall var, gen_get_line var = get_line var) /\
+  (forall out, drop_last GEN_GET_DROP out = get_slice out).
+Proof.
+  split; [intros var value; reflexivity|]. split; [intros var; reflexivity|]. intros out; reflexivity.
+Qed.
+Print Assumptions gen_env_lines_are_the_model.
